@@ -378,10 +378,61 @@ def _replay_par(mv, ob):
 
 
 # ------------------------------------------------------------------ bounded stand-in: values at k and -k
-def symmetric_model(kind, nw, seed):
+# ------------------------------------------------------------------ SDCT Fermi-surface term II: declaration against the parities of its ingredients
+F_SDCT = "wannierberri/formula/sdct.py"
+
+
+@unit("C08", "Formula_SDCT_surf_II: the declared time-reversal / inversion behaviour follows from the parities of its ingredients", expect_min=2, scope="shape:2 k-points, 2 bands; symbolic band velocities and magnetic-dipole matrices")
+def _sdct_surf_II(U):
+    import wannierberri.symmetry.point_symmetry as psm
+    NP = Shim()
+    g = dict(np=NP, transform_odd=psm.transform_odd, transform_odd_trans_102=psm.transform_odd_trans_102)
+
+    class Formula:                     # contract of formula.Formula.__init__ as far as these classes use it
+        def __init__(self, data_K, **kw):
+            self.external_terms, self.key_OO = True, "OO"
+    Base = U.klass(F_SDCT, "Formula_SDCT", globs=dict(g, Formula=Formula), bases=(Formula,), rewrite_comps=False)
+    S2 = U.klass(F_SDCT, "Formula_SDCT_surf_II", globs=dict(g, Formula_SDCT=Base), bases=(Base,), rewrite_comps=False)
+
+    def body():
+        sym = bool(ctx().choose(2, "symmetric part"))
+        nk, nb = 2, 2
+        V = sym_real_array("v", (nk, nb, 3))
+        B = sym_cplx_array("B", (nk, nb, nb, 3, 3))
+
+        def mk(sv, sb):
+            return types.SimpleNamespace(nk=nk, num_wann=nb, delE_K=V * sv, get_Bln=lambda **kw: B * sb)
+        at_k = S2(mk(1, 1), sym=sym)
+        for what, sv, sb in (("time reversal", -1, -1), ("inversion", -1, 1)):
+            # ingredients at -k of a symmetric system: band velocity odd under both; the magnetic-dipole (orbital + spin) matrix is an axial,
+            # time-odd quantity: odd under time reversal, even under inversion
+            at_mk = S2(mk(sv, sb), sym=sym)
+            T = at_k.transformTR if what == "time reversal" else at_k.transformInv
+            ok = True
+            for ik in range(nk):
+                for n in range(nb):
+                    want = T(rnp.array(at_k.trace_ln(ik, [n], None), dtype=object).copy())
+                    got = at_mk.trace_ln(ik, [n], None)
+                    for idx in rnp.ndindex(3, 3, 3):
+                        d_ = SCplx.of(got[idx]) - SCplx.of(want[idx])
+                        ok = ok and _is_zero(d_.re) and _is_zero(d_.im)
+            U.ensure("%s part, %s: value(-k) built from the transformed ingredients = declared transformation of value(k) [sdct-surf-II-%s-%s]" % ("symmetric" if sym else "antisymmetric", what, "sym" if sym else "asym", "TR" if what == "time reversal" else "Inv"), ok)
+    U.run(body, check_feasible=False)
+    U.external("parities of the ingredients: band velocity odd under time reversal and inversion; magnetic-dipole matrix (get_Bln with orb / spin terms) odd under time reversal, even under inversion")
+
+
+def _is_zero(x):
+    s_ = z3.Solver()
+    s_.add(lift(x).t != 0)
+    return s_.check() == z3.unsat
+
+
+def symmetric_model(kind, nw, seed, orbital=False):
     """random Hermitian tight-binding model with Hamiltonian and position matrices:
        TR : real matrices, X(-R) = X(R)^T (real Wannier functions), arbitrary centres
-       Inv: even orbitals on the inversion centre: H(-R) = H(R) Hermitian, A(-R) = -A(R) anti-Hermitian"""
+       Inv: even orbitals on the inversion centre: H(-R) = H(R) Hermitian, A(-R) = -A(R) anti-Hermitian
+       orbital=True adds BB(R) = <0|H (r-R)|R> and CC_a(R) = i eps_abc <0|r_b H (r-R)_c|R> with the constraints the symmetry puts on them:
+       general: CC(-R) = CC(R)^dagger, BB(-R) free;  TR (real functions): BB real, CC imaginary;  Inv (even functions): BB(-R) = -BB(R), CC(-R) = CC(R)"""
     from wannierberri.system.system_R import System_R
     from wannierberri.fourier.rvectors import Rvectors
     rs = rnp.random.RandomState(seed)
@@ -421,6 +472,27 @@ def symmetric_model(kind, nw, seed):
     s.rvec = Rvectors(lattice=latt, iRvec=Rs, shifts_left_red=cen)
     s.set_R_mat("Ham", H)
     s.set_R_mat("AA", A)
+    if orbital:
+        B = rnp.zeros((len(Rs), nw, nw, 3), complex)
+        C = rnp.zeros((len(Rs), nw, nw, 3), complex)
+        for R, i in idx.items():
+            j = idx[tuple(-x for x in R)]
+            if kind == "TR":
+                B[i] = rs.randn(nw, nw, 3)
+                if j >= i:
+                    c = 1j * rs.randn(nw, nw, 3)
+                    if i == j:
+                        c = 0.5 * (c + c.swapaxes(0, 1).conj())
+                    C[i], C[j] = c, c.swapaxes(0, 1).conj()
+            elif j >= i:
+                b = rs.randn(nw, nw, 3) + 1j * rs.randn(nw, nw, 3)
+                c = rs.randn(nw, nw, 3) + 1j * rs.randn(nw, nw, 3)
+                c = 0.5 * (c + c.swapaxes(0, 1).conj())
+                if i == j:
+                    b = 0 * b
+                B[i], B[j], C[i], C[j] = b, -b, c, c
+        s.set_R_mat("BB", B)
+        s.set_R_mat("CC", C)
     s.do_at_end_of_init()
     return s
 
@@ -436,16 +508,16 @@ def _calculators():
         "DerBerryCurvature": tabulate.DerBerryCurvature(), "Der2BerryCurvature": tabulate.Der2BerryCurvature(),
         "JDOS": dynamic.JDOS(**kw), "OpticalConductivity": dynamic.OpticalConductivity(**kw), "ShiftCurrent": dynamic.ShiftCurrent(sc_eta=0.1, **kw),
         "InjectionCurrent": dynamic.InjectionCurrent(**kw),
-    } | _sdct_calculators(kw) | _static_calculators()
+    } | _sdct_calculators(dict(kw, kBT=0.5)) | _static_calculators()        # a warm Fermi surface: the surface terms are not exponentially small at a random k
 
 
 def _sdct_calculators(kw):
-    """the terms of the spatially dispersive conductivity tensor that need only the Hamiltonian and position matrices (sea_I and asym_surf_II need BB / CC)"""
+    """the terms of the spatially dispersive conductivity tensor that need no more than Hamiltonian, position and BB / CC matrices (sea_I also needs FF: skipped)"""
     try:
         from wannierberri.calculators import sdct
     except ImportError:
         return {}
-    return {"sdct." + nm: getattr(sdct, nm)(**kw) for nm in ("SDCT_sym_sea_II", "SDCT_asym_sea_II", "SDCT_sym_surf_I", "SDCT_asym_surf_I", "SDCT_sym_surf_II") if hasattr(sdct, nm)}
+    return {"sdct." + nm: getattr(sdct, nm)(**kw) for nm in ("SDCT_sym_sea_II", "SDCT_asym_sea_II", "SDCT_sym_surf_I", "SDCT_asym_surf_I", "SDCT_sym_surf_II", "SDCT_asym_surf_II") if hasattr(sdct, nm)}
 
 
 STATIC = ["AHC", "AHC_test", "Ohmic_FermiSea", "Ohmic_FermiSurf", "Hall_classic_FermiSurf", "Hall_classic_FermiSea", "BerryDipole_FermiSurf", "BerryDipole_FermiSea",
@@ -474,7 +546,7 @@ def _real_parities(rng, n):
         for t in range(2 if n <= 30 else 6):
             for kind in ("TR", "Inv"):
                 seed = rng.randint(1, 10 ** 6)
-                s = symmetric_model(kind, 3, seed)
+                s = symmetric_model(kind, 3, seed, orbital=True)
                 grid = wb.grid.Grid(s, NK=1, NKFFT=1, use_symmetry=False)
                 k = rnp.array([rng.uniform(-0.5, 0.5) for _ in range(3)])
                 dp, dm = Data_K_R(s, grid=grid, dK=k), Data_K_R(s, grid=grid, dK=-k)
@@ -489,14 +561,14 @@ def _real_parities(rng, n):
                     T = rp.transformTR if kind == "TR" else rp.transformInv
                     want = T(rnp.array(rp.data).copy())
                     got = rnp.array(rm.data)
-                    sc = max(1.0, float(abs(want).max()))
+                    sc = max(1e-4, float(abs(want).max()))          # symmetry-forbidden tensors are rounding noise (< 1e-12 here): absolute floor 1e-11
                     cases += 1
                     if got.shape != want.shape or float(abs(got - want).max()) > 1e-7 * sc:
-                        fails.append(dict(input=dict(model=kind, seed=seed, k=k.tolist(), calculator=nm), clause="value(-k) = declared %s transformation of value(k)" % kind,
+                        fails.append(dict(input=dict(tag="%s/%s" % (nm, kind), model=kind, seed=seed, k=k.tolist(), calculator=nm), clause="value(-k) = declared %s transformation of value(k)" % kind,
                                           declared=dict(factor=T.factor, conj=T.conj, transpose_axes=T.transpose_axes), err=float(abs(got - want).max()), scale=sc))
     return dict(cases=cases, failures=fails, distinct=cases, skipped=sorted(skipped))
 
 
 Unit("C08", "values at -k against the declared transformation of the values at k [real code, symmetric random models]", concrete=_real_parities,
-     bounded_desc="installed Data_K_R + 9 tabulators (energy ... second derivative of the Berry curvature, internal / external variants) + JDOS, optical conductivity, shift current, injection current, five terms of the spatially dispersive conductivity + 14 static calculators (AHC, Ohmic, classical Hall, Berry dipole, non-linear Drude, quantum metric ...) "
-                  "at a random k and -k of 2 (quick) / 6 (thorough) random 3-band time-reversal symmetric and inversion-symmetric models (Hamiltonian and position matrices)")
+     bounded_desc="installed Data_K_R + 9 tabulators (energy ... second derivative of the Berry curvature, internal / external variants) + JDOS, optical conductivity, shift current, injection current, six terms of the spatially dispersive conductivity + 14 static calculators (AHC, Ohmic, classical Hall, Berry dipole, non-linear Drude, quantum metric ...) "
+                  "at a random k and -k of 2 (quick) / 6 (thorough) random 3-band time-reversal symmetric and inversion-symmetric models (Hamiltonian, position, BB and CC matrices with the constraints of the symmetry)")
